@@ -43,9 +43,18 @@ def run(tier, seed):
     o2, m2 = faces.bisector_obligations("C16")
     obs += [x for x in o2 if "returns_iff_safety_radius" in x.name or x.name.endswith("bisector.defined") or x.expect_sat]; fns.append(m2)
     obs += update_sites("C16")
-    o3, u3 = init_obligations("C16"); obs += o3; fns += [{"fn": x.label + " (whole function, update_safety_radius inlined)", "slice_sha": x.sha} for x in u3]
+    got, lost = runner.unit_or_undecided("C16.init.unit_not_evaluated", "E2", "voronoi::convex_cell::ConvexCell::init", lambda: init_obligations("C16"))
+    if got is not None:
+        o3, u3 = got; obs += o3; fns += [{"fn": x.label + " (whole function, update_safety_radius inlined)", "slice_sha": x.sha} for x in u3]
     smt.discharge_all(obs, tier)
-    results = [runner.from_smt(o) for o in obs]
+    results = [runner.from_smt(o) for o in obs] + lost
+    # bounded stand-in on the real crate: cells that are never clipped (one generator) are the box, so their farthest corner is known
+    class _O: model = {}
+    rr = replay_radius(_O())
+    results.append(runner.Result("C16.bounded.real_unclipped_cells_report_at_least_twice_the_distance_to_their_farthest_corner", "R", "refuted" if rr["reproduced"] else "discharged", 0.0, "replay",
+                                 repr(rr)[:2000] if rr["reproduced"] else "", "Voronoi::build with a single generator (public API, real crate)",
+                                 bounded="9 single-generator tessellations (1D/2D/3D, off-centre generators, non-cubic boxes)",
+                                 counterexample=rr if rr["reproduced"] else None, replay={"reproduced": rr["reproduced"], "mismatch": rr.get("runs")}))
     results += kani.run_specs("C16", e3sets.SAFETY, tier)
     fns.append({"fn": e3sets.U_SAFETY, "backend": "Kani on the real crate (bounded)"})
     meta = {
